@@ -199,6 +199,8 @@ def _run_klatt(case, d):
     # optional modification of a random subset of tiers
     calls = []
     expected_after = [[x[0], x[1], x[2], [list(e) for e in x[3]]] for x in d0]
+    if rng.random() < 0.5:
+        kg.save(os.path.join(d, "pre.KlattGrid"))       # an earlier save must not influence later ones
     if rng.random() < 0.7:
         kind = rng.choice(["scale", "const", "neg", "tiny", "huge", "zero"])
         c = {"scale": rng.choice([1.1, 0.9, 1 / 3, 2 ** 0.5]), "const": float(rng.choice([120, 7, 50])), "neg": -1.0,
@@ -214,16 +216,23 @@ def _run_klatt(case, d):
             t = kg._tierDict[n]
             if isinstance(t, KlattContainerTier):
                 for n2 in t.tierNameList:
-                    if rng.random() < 0.3:
+                    u = rng.random()
+                    if u < 0.3:
                         t.modifySubtiers(n2, fn)
                         targets.append((n, n2))
+                    elif u < 0.5:
+                        # one sub-tier addressed directly
+                        it = t.tierDict[n2]
+                        n3 = rng.choice(it.tierNameList)
+                        it.tierDict[n3].modifyValues(fn)
+                        targets.append((n, n2, n3))
             elif rng.random() < 0.2:
                 t.modifyValues(fn)
                 targets.append((n,))
         ncalls = 0
         for x in expected_after:
             path = tuple(x[0])
-            if path[:2] in targets or (len(path) == 1 and path in targets):
+            if path[:2] in targets or path in targets:
                 for e in x[3]:
                     v = float.fromhex(e[1])
                     e[1] = float(fn(v) if False else (v * c if kind in ("scale", "tiny", "huge", "neg") else c)).hex()
